@@ -345,8 +345,145 @@ func fieldRunners() []runner {
 			unmarshalCBOR:   func(b []byte) (*bls12381.BaseFieldElementG1, error) { var s bls12381.BaseFieldElementG1; err := s.UnmarshalCBOR(b); return &s, err },
 			marshalCBOR:     (*bls12381.BaseFieldElementG1).MarshalCBOR}))
 	}
-	out = append(out, gtRunner())
+	out = append(out, g2BaseRunner(), gtRunner())
 	return out
+}
+
+// ---------------------------------------------------------------- BLS12-381 G2 base field F_p^2
+// FromBytes / Bytes / CBOR: c0 || c1, big endian; MarshalBinary / UnmarshalBinary: c1 || c0, little endian.
+func g2BaseRunner() runner {
+	return runner{name: "bls-g2-base", run: func(w *tr.W, cfg config) {
+		bf := bls12381.NewG2BaseField()
+		f := fBls2
+		rng := tr.PRand(cfg.seed, 4242)
+		tokV := func(v fe) int { return tokElem("fp2", f.str(v)) }
+		val := func(e *bls12381.BaseFieldElementG2) fe { return fe{fromLE(e.V.U0.Bytes()), fromLE(e.V.U1.Bytes())} }
+		mk := func(v fe) *bls12381.BaseFieldElementG2 { // through the low-level limbs, no decoder involved
+			var e bls12381.BaseFieldElementG2
+			e.V.U0.SetBytesWide(leBytes(v[0], 48))
+			e.V.U1.SetBytesWide(leBytes(v[1], 48))
+			return &e
+		}
+		type gd struct {
+			api, rule string
+			le, hiFirst bool
+			dec         func([]byte) (*bls12381.BaseFieldElementG2, error)
+			enc         func(*bls12381.BaseFieldElementG2) ([]byte, error)
+			wrap, unw   func([]byte) []byte
+		}
+		decs := []gd{
+			{api: "FromBytes", rule: "fbe", dec: bf.FromBytes, enc: func(e *bls12381.BaseFieldElementG2) ([]byte, error) { return e.Bytes(), nil }},
+			{api: "UnmarshalBinary", rule: "fle", le: true, hiFirst: true,
+				dec: func(b []byte) (*bls12381.BaseFieldElementG2, error) { var e bls12381.BaseFieldElementG2; err := e.UnmarshalBinary(b); return &e, err },
+				enc: (*bls12381.BaseFieldElementG2).MarshalBinary},
+			{api: "UnmarshalCBOR", rule: "fbe",
+				dec: func(b []byte) (*bls12381.BaseFieldElementG2, error) { var e bls12381.BaseFieldElementG2; err := e.UnmarshalCBOR(b); return &e, err },
+				enc: (*bls12381.BaseFieldElementG2).MarshalCBOR, wrap: cborWrap("fieldBytes"), unw: cborUnwrap("fieldBytes")},
+		}
+		encx := func(d gd, v fe) []byte {
+			a, b := v[0], v[1]
+			if d.hiFirst {
+				a, b = b, a
+			}
+			if d.le {
+				return append(leBytes(a, 48), leBytes(b, 48)...)
+			}
+			return append(beBytes(a, 48), beBytes(b, 48)...)
+		}
+		parse := func(d gd, b []byte) (fe, bool) {
+			rd := fromBE
+			if d.le {
+				rd = fromLE
+			}
+			a, c := rd(b[:48]), rd(b[48:])
+			if d.hiFirst {
+				a, c = c, a
+			}
+			return f.fromInts(a, c), a.Cmp(f.p) < 0 && c.Cmp(f.p) < 0
+		}
+		w.Emit(map[string]any{"a": "curve", "curve": "bls-g2-base", "promise": "field", "win": cfg.fwin, "apis": []string{}})
+		smalls := []*big.Int{new(big.Int), one, two, big.NewInt(7), new(big.Int).Sub(f.p, one), new(big.Int).Rsh(f.p, 1)}
+		var vals []fe
+		for _, a := range smalls {
+			for _, b := range smalls {
+				vals = append(vals, f.fromInts(a, b))
+			}
+		}
+		for i := 0; i < 8*cfg.nrand; i++ {
+			vals = append(vals, randFe(f, rng))
+		}
+		for _, d := range decs {
+			var injE, injB []int
+			for i, v := range vals {
+				ev := map[string]any{"a": "rt", "curve": "bls-g2-base", "api": d.api, "fmt": d.rule, "label": "large", "k": i, "elem": tokV(v), "elemNeg": 0}
+				el := mk(v)
+				var enc []byte
+				var err error
+				if msg := guard(func() { enc, err = d.enc(el) }); msg != "" || err != nil {
+					ev["panic"], ev["stage"], ev["acc"] = msg != "", "encode", false
+					w.Emit(ev)
+					continue
+				}
+				payload := enc
+				if d.unw != nil {
+					payload = d.unw(enc)
+				}
+				ev["enc"], ev["encx"] = tokBytes(payload), tokBytes(encx(d, v))
+				injE, injB = append(injE, ev["elem"].(int)), append(injB, ev["enc"].(int))
+				var back *bls12381.BaseFieldElementG2
+				msg := guard(func() { back, err = d.dec(enc) })
+				ev["panic"], ev["acc"] = msg != "", msg == "" && err == nil
+				if msg == "" && err == nil {
+					ev["dec"], ev["decOnc"], ev["decInSub"] = tokV(val(back)), true, true
+					re, _ := d.enc(back)
+					if d.unw != nil {
+						re = d.unw(re)
+					}
+					ev["re"] = tokBytes(re)
+				}
+				w.Emit(ev)
+			}
+			w.Emit(map[string]any{"a": "inj", "curve": "bls-g2-base", "api": d.api, "fmt": d.rule, "elems": injE, "encs": injB})
+			// crafted: lengths, unreduced components, random
+			g := encx(d, f.fromInts(big.NewInt(0x010203), big.NewInt(0x040506)))
+			cs := []craft{{"len-0", "", []byte{}}, {"len-short", "48", cp(g[:48])}, {"len-short", "95", cp(g[:95])}, {"len-long", "97", append(cp(g), 0)},
+				{"len-long", "192", append(cp(g), g...)}, {"value-unreduced", "ones", bytesOf(0xff, 96)}}
+			for _, pair := range [][2]*big.Int{{f.p, one}, {one, f.p}, {new(big.Int).Add(f.p, two), new(big.Int).Add(f.p, one)}} {
+				cs = append(cs, craft{"value-unreduced", "", encx(d, fe{pair[0], pair[1]})})
+			}
+			for i := 0; i < cfg.nrand; i++ {
+				b := make([]byte, 96)
+				for j := range b {
+					b[j] = byte(rng.UintN(256))
+				}
+				cs = append(cs, craft{"random", "", b})
+			}
+			for _, c := range cs {
+				ev := map[string]any{"a": "dec", "curve": "bls-g2-base", "api": d.api, "fmt": d.rule, "cls": c.cls, "det": c.det, "promise": "field",
+					"len": len(c.b), "L": 96, "idenc": false, "fl": map[string]int{"none": 0}, "idform": "no", "red": true, "onc": true, "insub": true,
+					"small": false, "canon": false, "exps": []int{}}
+				if len(c.b) == 96 {
+					v, red := parse(d, c.b)
+					ev["red"], ev["canon"], ev["exps"] = red, red, []int{tokV(v)}
+				}
+				in := c.b
+				if d.wrap != nil {
+					in = d.wrap(c.b)
+				}
+				var back *bls12381.BaseFieldElementG2
+				var err error
+				msg := guard(func() { back, err = d.dec(in) })
+				ev["panic"], ev["acc"] = msg != "", msg == "" && err == nil
+				ev["got"], ev["gotOnc"], ev["gotInSub"] = 0, false, false
+				if msg == "" && err == nil {
+					ev["got"], ev["gotOnc"], ev["gotInSub"] = tokV(val(back)), true, true
+				} else {
+					ev["err"] = msg + tr.ErrChain(err)
+				}
+				w.Emit(ev)
+			}
+		}
+	}}
 }
 
 // ---------------------------------------------------------------- BLS12-381 target group
